@@ -13,6 +13,8 @@ replayed on uninstrumented code by the caller); unknown = inconclusive.
 from __future__ import annotations
 
 import numbers
+import os
+import json
 import time
 from typing import Any, Callable
 
@@ -236,9 +238,13 @@ class Engine:
             raise FuelExhausted('%d loop iterations' % self.fuel_used)
 
     # ------------------------------------------------------------ exploring
+    path_start_hooks: list = []      # callables run when a path starts (per-path tables of other modules)
+
     def run_path(self, fn: Callable[['Engine'], Any], prefix: list) -> dict | None:
         """Execute one path from a decision prefix; returns a record."""
         Engine.cur = self
+        for hook in Engine.path_start_hooks:
+            hook()
         self.prefix = prefix
         self.trail = []
         self.pos = 0
@@ -282,11 +288,25 @@ class Engine:
                     rec['sample'] = out.witness(self.model)
             else:
                 wit = out.witness(model) if out.witness else None
+                if os.environ.get('VERIF_DEBUG_CEX') and not getattr(self, '_in_recheck', False):
+                    # debugging aid: run the same decisions again on a fresh engine in this process
+                    e2 = Engine()
+                    e2._in_recheck = True
+                    mine = [str(a_) for a_ in self.solver.assertions()]
+                    prop1 = str(out.prop.t if isinstance(out.prop, SymBool) else out.prop)
+                    r2 = e2.run_path(fn, list(self.trail))
+                    Engine.cur = self
+                    with open(os.environ['VERIF_DEBUG_CEX'], 'a') as f:
+                        f.write(json.dumps({'pid': os.getpid(), 'wit': wit, 'second_run': r2 and r2['status'],
+                                            'prop': prop1[:3000], 'assertions': mine[-60:],
+                                            'second_assertions': getattr(e2, '_last_assertions', None)}, default=str) + '\n')
                 rec = {'status': 'cex', 'site': out.site, 'info': out.info,
                        'witness': wit,
-                       'trail': [c for c, _ in self.trail][:200]}
+                       'trail': [[c, t if isinstance(t, (int, str, bool, type(None))) else str(t)] for c, t in self.trail][:400]}
             return rec
         finally:
+            if getattr(self, '_in_recheck', False):
+                self._last_assertions = [str(a_) for a_ in self.solver.assertions()][-60:]
             self.solver.pop()
 
     def explore(self, fn: Callable[['Engine'], Any], roots: list | None = None,
